@@ -409,7 +409,7 @@ func (g *Gen) StringLiteral() string {
 }
 
 var (
-	intSpellings   = []string{"0", "-0", "1", "-1", "7", "42", "2147483647", "-2147483648"}
+	intSpellings   = []string{"0", "-0", "1", "-1", "7", "42", "2147483647", "-2147483647"}
 	floatSpellings = []string{"1.5", "-1.5", "0.0", "-0.0", "1e5", "1E5", "1e+5", "1E+5", "1e-5", "1E-5", "1.5e10", "1.5E-10", "1.50", "0.1",
 		"100.001", "3.14159265358979323846264338327950288", "0.000000000000000000000000000001", "123456789.123456789e+10",
 		"1e400", "1e-400", "0e0", "-0e-0", "10.0E+2"}
@@ -422,6 +422,9 @@ func (g *Gen) intLiteral() string {
 			return "-" + g.SentinelInt()
 		}
 		return g.SentinelInt()
+	}
+	if g.p(1, 40, "intmin") {
+		return "-2147483648" // trips a recorded defect of operation validation: rare
 	}
 	return pick(g, intSpellings, "intsp")
 }
@@ -501,7 +504,7 @@ func (g *Gen) join(parts []string) string {
 // here must have a runtime value.
 func (g *Gen) Literal(t *Type, depth int, vars bool, inList bool) string {
 	if vars && depth > 0 && g.S.KindOf(t.Base()) != KindUnknown && g.p(1, 6, "usevar") {
-		return g.newVar(t, inList, false)
+		return g.NewVar(t, inList, false)
 	}
 	if !t.NonNull && (g.p(1, 8, "nulllit") || depth > 6) {
 		return "null"
@@ -558,7 +561,7 @@ func (g *Gen) Literal(t *Type, depth int, vars bool, inList bool) string {
 			ft := f.T().Required()
 			var val string
 			if vars && g.p(1, 6, "oneofvar") {
-				val = g.newVar(ft, true, true)
+				val = g.NewVar(ft, true, true)
 			} else {
 				val = g.Literal(ft, depth+1, vars, true)
 			}
@@ -587,9 +590,9 @@ func (g *Gen) Literal(t *Type, depth int, vars bool, inList bool) string {
 	panic("unknown type " + t.Name)
 }
 
-// newVar declares a fresh variable usable at a position of type t and returns "$name".
+// NewVar declares a fresh variable usable at a position of type t and returns "$name".
 // mustHaveValue: the position needs a runtime value (list item, oneOf field).
-func (g *Gen) newVar(t *Type, mustHaveValue, nonNullValue bool) string {
+func (g *Gen) NewVar(t *Type, mustHaveValue, nonNullValue bool) string {
 	name := fmt.Sprintf("x%d", len(g.Vars))
 	vt := t
 	if !t.NonNull && g.p(1, 3, "stricter") {
